@@ -22,7 +22,12 @@ META = {
             "outstanding id, and calls answered after up to 1023 younger ones, are part of the histories). The model is tied to /repo on every run by statement skeletons regenerated from transport.go "
             "(ownership of the pending table, order of the type check, fetch-removes, error assignment before "
             "done) and by scripted adversarial-peer histories run against the real transport and replayed inside "
-            "Coq.",
+            "Coq. How the bytes of a reply are cut into reads does not matter: handleMessage makes no read of its own "
+            "on the frame reader and every read of the decoder is a full read (read off the source), delivery with a "
+            "full read of the header is a function of the frame's bytes alone, and a header fetched with a single "
+            "Read is kept as a refuted counter-model; in the histories the peer sends replies in one websocket frame "
+            "or in two fragments (first fragment 1, 5, 9, 10, 11 bytes) and the transport's connection delivers "
+            "everything or at most 1, 7, 9, 10, 11, 64 bytes per Read.",
     "note": "Trusted: Coq kernel + vm_compute; translator gen/sni_rpc.go; harness/cmd/c03 + sniproxy/verif_rpc.go; "
             "goroutine interleavings are abstracted to the wire order of requests and replies (justified by the "
             "ownership obligations on the skeleton, exercised by concurrent callers); gorilla/websocket framing and "
